@@ -18,6 +18,7 @@ from ..run import Outcome
 
 ID = "C18"
 BUDGET = {"quick": 30000, "thorough": 300000}
+FUZZ = {"thorough": 6000}  # coverage-guided stage: libFuzzer runs per worker (x16), see vk/fuzz.py
 RULE = (
     "Hypothesis builds a table MODEL and writes it with csv.writer into a per-case temp dir: "
     "(csv) header + 1-12 rows, 1-6 rank columns, optional id column at any position, optional "
